@@ -54,7 +54,22 @@ func TestVerifC06Wire(t *testing.T) {
 	}
 }
 
-var c06WireNames = []string{"example.org", "a.example.org", "b.example.org", "c.a.example.org", "d.c.a.example.org", "other.test", "x.other.test"}
+var c06WireNames = []string{"example.org", "a.example.org", "b.example.org", "c.a.example.org", "d.c.a.example.org", "other.test", "x.other.test",
+	// Names glued to a wildcard's apex without a label boundary: "*.example.org"
+	// matches none of the first two, "*.a.example.org" not the third,
+	// "*.other.test" not the last.
+	"xexample.org", "a.xexample.org", "xa.example.org", "xother.test"}
+
+// c06WireMatch is the monitor's own pattern match: an exact pattern matches
+// its name, "*.apex" matches names that end with ".apex".
+func c06WireMatch(pat, name string) bool {
+	pat, name = strings.ToLower(pat), strings.ToLower(strings.TrimSuffix(name, "."))
+	if pat == name {
+		return true
+	}
+
+	return strings.HasPrefix(pat, "*.") && len(name) > len(pat)-1 && strings.HasSuffix(name, pat[1:])
+}
 
 func c06WireTable(rep *verifkit.Report, rng *rand.Rand, idx int) {
 	n := 1 + rng.Intn(8)
@@ -129,7 +144,7 @@ func c06WireTable(rep *verifkit.Report, rng *rand.Rand, idx int) {
 			w := func() map[string]any {
 				m := map[string]any{"table": texts, "query": qname + " " + dns.TypeToString[qt],
 					"filtering_result": map[string]any{"reason": res.Reason.String(), "canon_name": res.CanonName, "ips": fmt.Sprint(res.IPList)},
-					"upstream_calls": calls}
+					"upstream_calls":   calls}
 				if resp != nil {
 					m["reply"] = resp.String()
 				}
@@ -168,6 +183,45 @@ func c06WireTable(rep *verifkit.Report, rng *rand.Rand, idx int) {
 				}
 			}
 			sort.Strings(addrs)
+			// Independent of the product's own result: a name that no
+			// pattern of the table matches is not rewritten, and every
+			// address in a rewritten answer is the value of a line whose
+			// pattern matches the final name.
+			anyMatch := false
+			for _, rw := range rws {
+				anyMatch = anyMatch || c06WireMatch(rw.Domain, qname)
+			}
+			if !anyMatch {
+				rep.Class("no_pattern_matches")
+				if matched {
+					rep.Violate("wire:rewritten-although-no-pattern-matches", "the table has no pattern that matches the queried name, yet the query was rewritten", w())
+
+					continue
+				}
+			}
+			if matched && res.CanonName == strings.ToLower(res.CanonName) {
+				final := qname
+				if res.CanonName != "" {
+					final = res.CanonName
+				}
+				unsound := ""
+				for _, a := range addrs {
+					ok := false
+					for _, rw := range rws {
+						if ip, perr := netip.ParseAddr(rw.Answer); perr == nil && ip.String() == a && c06WireMatch(rw.Domain, final) {
+							ok = true
+						}
+					}
+					if !ok && !c01HasMarker(resp) {
+						unsound = a
+					}
+				}
+				if unsound != "" {
+					rep.Violate("wire:address-of-no-line-matching-final-name", "address "+unsound+" in the answer is not the value of a line whose pattern matches "+final, w())
+
+					continue
+				}
+			}
 			switch {
 			case !matched:
 				rep.Class("passed_through")
